@@ -63,6 +63,8 @@ pub struct Case<S: StoredVec<I = usize, T = usize>, G: StoredVec<I = usize, T = 
     ref_recorded: Option<Version>,
     /// C19 reference: the versions of all sources at the last successful compute call
     ver_at_compute: Option<Vec<u32>>,
+    /// C19 reference: (results, recorded version) after each of the last successful compute calls that left results
+    produced: Vec<(Vec<usize>, Version)>,
     gen_no: u32,
     scratch_no: u32,
     exit: Exit,
@@ -82,7 +84,7 @@ impl<S: StoredVec<I = usize, T = usize>, G: StoredVec<I = usize, T = usize>> Cas
         let n = shape(method).len();
         let src = (0..n).map(|k| open_src::<S>(&db, &format!("s{k}"), 1)).collect();
         let tgt = Some(EagerVec::<G>::forced_import(&db, "t", Version::new(1)).unwrap());
-        Case { _dir: dir, db, method: method.into(), window, from, src, vals: vec![vec![]; n], tgt, ver: vec![1; n], ref_recorded: None, ver_at_compute: None, gen_no: 0, scratch_no: 0, exit: Exit::new() }
+        Case { _dir: dir, db, method: method.into(), window, from, src, vals: vec![vec![]; n], tgt, ver: vec![1; n], ref_recorded: None, ver_at_compute: None, produced: vec![], gen_no: 0, scratch_no: 0, exit: Exit::new() }
     }
 
     /// append `k` elements to every source, respecting the shape constraints
@@ -261,6 +263,10 @@ impl<S: StoredVec<I = usize, T = usize>, G: StoredVec<I = usize, T = usize>> Cas
                 }
             }
             self.ver_at_compute = Some(self.ver.clone());
+            if !inc.is_empty() {
+                self.produced.push((inc.clone(), recorded_after));
+                if self.produced.len() > 8 { self.produced.remove(0); }
+            }
         }
         // C19: evaluation log of the closure + kept prefix
         if out == "ok" && matches!(self.method.as_str(), "to" | "transform") {
@@ -299,6 +305,17 @@ impl<S: StoredVec<I = usize, T = usize>, G: StoredVec<I = usize, T = usize>> Cas
                 // the recorded version is now whatever was last persisted (an empty vector persists nothing): the
                 // "exactly one input changed since the last call" reference starts afresh
                 self.ver_at_compute = None;
+                // results and the version recorded with them travel together: what comes back from disk must carry the
+                // version under which exactly these results were produced
+                let now: Vec<usize> = t.collect();
+                if !now.is_empty() {
+                    let lab = t.header().computed_version();
+                    let under: Vec<Version> = self.produced.iter().filter(|(r, _)| *r == now).map(|(_, v)| *v).collect();
+                    if !under.is_empty() && !under.contains(&lab) {
+                        self.tgt = Some(t);
+                        return format!("err:C19: after re-import the vector holds {} results that were produced under {:?} but its header records {:?}", now.len(), under[0], lab);
+                    }
+                }
                 if nonempty && t.header().computed_version() != rec { Err(format!("C19: recorded version {:?} became {:?} across re-import", rec, t.header().computed_version())) } else { Ok(()) }
             }
             _ => Ok(()),
